@@ -191,6 +191,9 @@ func (c *columnString) Apply(chunk commit.Chunk, r *commit.Reader) {
 			fill[offset>>6] |= 1 << (offset & 0x3f)
 			data[offset] = string(r.Bytes())
 		case commit.Merge:
+			if !fill.Contains(uint32(offset)) {
+				data[offset] = "" // no value, do not merge with a stale one
+			}
 			fill[offset>>6] |= 1 << (offset & 0x3f)
 			data[offset] = r.SwapString(c.Merge(data[offset], r.String()))
 			data[offset] = strings.Clone(data[offset]) // must not alias the transaction buffer
